@@ -33,7 +33,8 @@ Full statement / proved / missing
 * layers 2–4, types  — `C05_type_roundtrip_partial`: for every type `t` of the modelled fragment in the normal form the
                        creators produce (`WFTy`): parsing the text `t` prints and resolving it through the positional
                        creators yields exactly `t` (hence a type equal to `t` that prints the same text again).
-                       Fragment: the parameterless core types, Integer[…], String[…] (size constrained; the exact-value
+                       Fragment: the parameterless core types, Integer[…], Float[lo, hi] (under the float parameter
+                       `FloatIO`, see below; `default` bounds, one-argument form), String[…] (size constrained; the exact-value
                        form directly inside Optional/NotUndef), Boolean[b], Enum[…] (incl. the case-insensitivity flag),
                        Regexp[/…/], Pattern[…], Optional NotUndef Type Sensitive Iterable Iterator, Variant[…],
                        Array[…], Hash[…], Collection[…], Tuple[…] (with and without a size), Struct[{…}] (every key form:
@@ -42,8 +43,12 @@ Full statement / proved / missing
                        duplicate names, the empty Struct) — arbitrarily nested, all Int64 bounds, all string contents.
                        The full statement `C05_type_roundtrip_full` (over the whole `Ty`) is false exactly at the
                        property's stated exception: `C05_exact_string_prints_plain`.
-                       Missing (no theorem; direct predicate on the implementation only): Float[…] (float rendering),
-                       Callable, Runtime, Init, Like, Object, TypeSet, aliases, TypeReference and the leaf
+                       Float bounds: decimal float conversion is NOT modelled; the theorem assumes of it exactly `FloatIO`
+                       per printed bound `b`: the text the formatter oracle gives (`env.ff b` = `floatGFormat "%g"`)
+                       lexes as one float token and the reader oracle (`env.pf` = `strconv.ParseFloat`) maps it back to
+                       `b`.  The lexing half is a theorem for `D+.D+` texts (`nextToken_simple_float`); the driver's
+                       reader is the exact `parseFloat`, its formatter is the implementation's own text (op-line oracle).
+                       Missing (no theorem; direct predicate on the implementation only): Callable, Runtime, Init, Like, Object, TypeSet, aliases, TypeReference and the leaf
                        types with parameters (known findings C05-leaf-type-params, -lazy-type, -nominal-type,
                        -callable-block).
 -/
@@ -134,18 +139,19 @@ example (env : Env) (h : env.pf ['1', '.', '5'] = some 4609434218613702656) :
 def C05_type_roundtrip_full : Prop :=
   ∀ (env : Env) (t : Ty), parseType env (syms (printTy t)) = some t
 
-/-- **types**: `resolve (parse (print t)) = t` on the fragment.  `WFTy env.rxOK t`: bounds are Int64 with lo ≤ hi, names are
+/-- **types**: `resolve (parse (print t)) = t` on the fragment.  `WFTy env t`: bounds are Int64 with lo ≤ hi, Float bounds
+    satisfy `FloatIO` and min ≤ max, names are
     core type names, regexp sources are representable and compile, a case-insensitive Enum holds lower-case ASCII
     values, a Variant does not have exactly one member (`Variant[T]` *is* `T`), and an exact-value String occurs only
     directly inside Optional / NotUndef (elsewhere it prints as plain String — the property's stated exception); a Struct
     member has a non-empty name (its key may or may not be optional, its value type may or may not accept `undef`: all
     four combinations are normal forms, see `C05_struct_key_forms`). -/
-theorem C05_type_roundtrip_partial (env : Env) (t : Ty) (h : WFTy env.rxOK t) :
+theorem C05_type_roundtrip_partial (env : Env) (t : Ty) (h : WFTy env t) :
     parseType env (syms (printTy t)) = some t :=
   type_rt env t h
 
 /-- consequence in the property's own words: the re-parsed type prints the same text again -/
-theorem C05_type_reprint (env : Env) (t : Ty) (h : WFTy env.rxOK t) :
+theorem C05_type_reprint (env : Env) (t : Ty) (h : WFTy env t) :
     ∃ t', parseType env (syms (printTy t)) = some t' ∧ printTy t' = printTy t :=
   ⟨t, type_rt env t h, rfl⟩
 
@@ -156,12 +162,51 @@ def sampleTy : Ty :=
                .pattern [['\\', 'd', '+'], []], .wrap .type_ (.strSz 0 10), .array tyUnit 0 0, .named "Data".toList,
                .tuple [.bool (some true), .regexp ['a', '/', 'b']] (some (1, 9223372036854775807)), .tuple [tyString] none])
     2 2
-example : WFTy envEx.rxOK sampleTy := by
+example : WFTy envEx sampleTy := by
   simp only [sampleTy, WFTy, WFTys, inI64, i64min, i64max, tyUnit, tyString, envEx]
   decide
 example : parseType envEx (syms (printTy sampleTy)) = some sampleTy :=
   C05_type_roundtrip_partial envEx sampleTy (by
     simp only [sampleTy, WFTy, WFTys, inI64, i64min, i64max, tyUnit, tyString, envEx]; decide)
+
+/-- non-vacuity of the float parameter on types: with the exact reader `parseFloat` and a formatter that answers what the
+    implementation prints for 1.5 and 2500.0, `Float[1.50000, 2500.00]`, `Float[1.50000]` and `Float[default, 2500.00]`
+    are well-formed (the lexing half by `nextToken_simple_float`, the reading half by evaluation) and round-trip -/
+def envF : Env :=
+  { envEx with
+    pf := parseFloat,
+    ff := fun b => if b = 4609434218613702656 then "1.50000".toList else if b = 4657715973212602368 then "2500.00".toList else [] }
+theorem lit_f15 : Lit envF (.float 4609434218613702656 "1.50000".toList) :=
+  ⟨fun k hk => nextToken_simple_float envF.isLetter '1' [] '5' ['0', '0', '0', '0'] k (by decide) (by simp) (by decide)
+      (by decide) hk, by decide +kernel⟩
+theorem lit_f2500 : Lit envF (.float 4657715973212602368 "2500.00".toList) :=
+  ⟨fun k hk => nextToken_simple_float envF.isLetter '2' ['5', '0', '0'] '0' ['0'] k (by decide) (by decide) (by decide)
+      (by decide) hk, by decide +kernel⟩
+def sampleFloats : List Ty :=
+  [.float 4609434218613702656 "1.50000".toList 4657715973212602368 "2500.00".toList,
+   .float 4609434218613702656 "1.50000".toList fPosMax [],
+   .float fNegMax [] 4657715973212602368 "2500.00".toList,
+   .struct [(['f'], false, .array (.float fNegMax [] 4657715973212602368 "2500.00".toList) 0 3)]]
+theorem sampleFloats_wf : ∀ t ∈ sampleFloats, WFTy envF t := by
+  have e1 : envF.ff 4609434218613702656 = "1.50000".toList := by decide
+  have e2 : envF.ff 4657715973212602368 = "2500.00".toList := by decide
+  have f1 : FloatIO envF 4609434218613702656 fNegMax "1.50000".toList := by
+    unfold FloatIO; rw [if_neg (by decide)]; exact ⟨e1.symm, lit_f15⟩
+  have f2 : FloatIO envF 4657715973212602368 fPosMax "2500.00".toList := by
+    unfold FloatIO; rw [if_neg (by decide)]; exact ⟨e2.symm, lit_f2500⟩
+  have d1 : FloatIO envF fNegMax fNegMax [] := by unfold FloatIO; rw [if_pos rfl]
+  have d2 : FloatIO envF fPosMax fPosMax [] := by unfold FloatIO; rw [if_pos rfl]
+  intro t ht
+  simp only [sampleFloats, List.mem_cons, List.mem_nil_iff, or_false] at ht
+  rcases ht with rfl | rfl | rfl | rfl
+  · exact ⟨f1, f2, by decide⟩
+  · exact ⟨f1, d2, by decide⟩
+  · exact ⟨d1, f2, by decide⟩
+  · exact ⟨by decide, ⟨⟨d1, f2, by decide⟩, by simp only [inI64, i64min, i64max]; decide⟩, trivial⟩
+example : ∀ t ∈ sampleFloats, parseType envF (syms (printTy t)) = some t :=
+  fun t ht => C05_type_roundtrip_partial envF t (sampleFloats_wf t ht)
+example : printTy (.float 4609434218613702656 "1.50000".toList 4657715973212602368 "2500.00".toList) =
+    "Float[1.50000, 2500.00]".toList := by decide +kernel
 
 /-- the four key forms of a Struct member: optional key + value accepting `undef` and required key + value refusing it
     print the bare name; the other two need `Optional['n']` / `NotUndef['n']` -/
@@ -182,7 +227,7 @@ def sampleStruct2 : Ty :=
     .struct [(['i', 't', '\'', 's', ' ', '\\'], false, .hash tyString (.struct [(['k'], true, .struct [])]) 0 5),
              (['k'], true, .wrap .notUndef (.strVal ['v'])), (['k'], false, .variant [.named "Undef".toList, .enum [['x']] false])]])
     1 3
-example : WFTy envEx.rxOK sampleStruct2 := by
+example : WFTy envEx sampleStruct2 := by
   simp only [sampleStruct2, sampleStruct, WFTy, WFTys, WFMs, inI64, i64min, i64max, tyAny, tyString, envEx]
   decide
 example : parseType envEx (syms (printTy sampleStruct2)) = some sampleStruct2 :=
@@ -199,7 +244,7 @@ theorem C05_exact_string_prints_plain : ¬ C05_type_roundtrip_full := by
     rfl
   have e : printTy (.strVal ['x']) = printTy tyString := by
     unfold printTy; rw [e0]
-  have hwf : WFTy envEx.rxOK tyString := by
+  have hwf : WFTy envEx tyString := by
     simp only [tyString, WFTy]; decide
   rw [e, C05_type_roundtrip_partial envEx tyString hwf] at h1
   simp [tyString] at h1
